@@ -246,7 +246,8 @@ def run_case_shards(workdir: Path, shards, timeout=600, jobs=16):
     while pending or running:
         while pending and len(running) < jobs:
             p = pending.pop(0)
-            pr = subprocess.Popen(["timeout", str(timeout), "coqc", "-q"] + COQ_FLAGS + [str(p)],
+            pr = subprocess.Popen(["bash", "-c", "ulimit -s unlimited 2>/dev/null; exec timeout %d coqc -q %s %s" % (
+                                      timeout, " ".join(COQ_FLAGS), str(p))],
                                   cwd=str(workdir), stdout=subprocess.PIPE, stderr=subprocess.STDOUT, text=True)
             running.append((p, pr))
         for p, pr in list(running):
